@@ -69,7 +69,57 @@ fn typed_and_reply(rng: &mut Rng) -> (TypedOp, Vec<u8>) {
 
 // ================================================================ C17
 
+/// every typed method at the sizes where a convenience wrapper could take a different path
+/// (one element, a byte boundary, the protocol maximum)
+fn typed_boundary_ops(rng: &mut Rng) -> Vec<(TypedOp, Vec<u8>)> {
+    use Response::*;
+    let mut v = vec![];
+    for n in [1usize, 8, 9, 2000] {
+        v.push((TypedOp::Rc(rng.u16(), n as u16), spec::response_bytes(&ReadCoils(rng.bits(n))).unwrap()));
+        v.push((TypedOp::Rdi(rng.u16(), n as u16), spec::response_bytes(&ReadDiscreteInputs(rng.bits(n))).unwrap()));
+    }
+    for n in [1usize, 2, 125] {
+        v.push((TypedOp::Rhr(rng.u16(), n as u16), spec::response_bytes(&ReadHoldingRegisters(rng.words(n))).unwrap()));
+        v.push((TypedOp::Rir(rng.u16(), n as u16), spec::response_bytes(&ReadInputRegisters(rng.words(n))).unwrap()));
+    }
+    for (n, w) in [(1usize, 1usize), (1, 2), (125, 121), (2, 0)] {
+        v.push((
+            TypedOp::Rwm(rng.u16(), n as u16, rng.u16(), rng.words(w)),
+            spec::response_bytes(&ReadWriteMultipleRegisters(rng.words(n))).unwrap(),
+        ));
+    }
+    for b in [false, true] {
+        let a = rng.u16();
+        v.push((TypedOp::Wsc(a, b), spec::response_bytes(&WriteSingleCoil(a, b)).unwrap()));
+    }
+    let (a, w) = (rng.u16(), rng.u16());
+    v.push((TypedOp::Wsr(a, w), spec::response_bytes(&WriteSingleRegister(a, w)).unwrap()));
+    for n in [1usize, 8, 9, 1968] {
+        let a = rng.u16();
+        v.push((TypedOp::Wmc(a, rng.bits(n)), spec::response_bytes(&WriteMultipleCoils(a, n as u16)).unwrap()));
+    }
+    for n in [1usize, 2, 123] {
+        let a = rng.u16();
+        v.push((TypedOp::Wmr(a, rng.words(n)), spec::response_bytes(&WriteMultipleRegisters(a, n as u16)).unwrap()));
+    }
+    let (a, am, om) = (rng.u16(), rng.u16(), rng.u16());
+    v.push((TypedOp::Mwr(a, am, om), spec::response_bytes(&MaskWriteRegister(a, am, om)).unwrap()));
+    v
+}
+
 pub fn gen_c17(out: &mut Out, rng: &mut Rng, thorough: bool) {
+    // every typed method of the blocking client at its boundary sizes, two per connection
+    for kind in ["tcp", "rtu"] {
+        let ops = typed_boundary_ops(rng);
+        for pair in ops.chunks(2) {
+            let unit = rng.u8();
+            let mut line = format!("sync {kind} {}", hex8(unit));
+            for (tid, (op, pdu)) in pair.iter().enumerate() {
+                line.push_str(&format!(" | typed {} r=d{}", op.tok(), hex_raw(&frame(kind, tid as u16, unit, pdu))));
+            }
+            monitor_line(out, &line);
+        }
+    }
     let n = if thorough { 2000 } else { 100 };
     for i in 0..n {
         let kind = if i % 4 == 3 { "rtu" } else { "tcp" };
@@ -187,8 +237,21 @@ pub fn gen_c18(out: &mut Out, rng: &mut Rng, thorough: bool) {
     for run in 0..runs {
         let kind = if run % 2 == 0 { "tcp" } else { "rtu" };
         let nconn = *rng.pick(&[2usize, 3, 5, 8, 16, 32]);
+        // every fifth run: some clients are connected (first in the accept queue) but stay
+        // silent until another connection has been served completely
+        let silent = run % 5 < 2;
         let mut line = format!("conc {kind}");
         for c in 0..nconn {
+            if silent && c < nconn - 1 && (c == 0 || rng.chance(1, 4)) {
+                line.push_str(&format!(" | after={}", nconn - 1));
+                let req = Request::ReadHoldingRegisters(c as u16, 1);
+                line.push_str(&format!(
+                    " svc={} r=d{}",
+                    Svc::Reply(Response::ReadHoldingRegisters(vec![c as u16])).tok(),
+                    hex_raw(&frame(kind, rng.u16(), 9, &spec::request_bytes(&req).unwrap()))
+                ));
+                continue;
+            }
             let nreq = rng.range(1, if thorough { 50 } else { 12 });
             let mut data = vec![];
             let mut svc = vec![];
